@@ -40,7 +40,7 @@ func c18Compare(c *core.Ctx, e *liquid.Engine, family, src string, env gen.Env, 
 		c.Skip("canonical realisation panics (C01's business)")
 		return
 	}
-	if strings.Contains(strings.ToLower(base.Out), "map[") || strings.Contains(base.Out, "[[") || strings.Contains(base.Out, " []") {
+	if family == "drops-typed" && (strings.Contains(strings.ToLower(base.Out), "map[") || strings.Contains(base.Out, "[[") || strings.Contains(base.Out, " []")) {
 		// a map, or an array of arrays turned into text: Go syntax, which no property defines
 		c.Skip("output prints a map or nested array in Go syntax (not defined by the properties)")
 		return
@@ -135,6 +135,7 @@ func runC18(c *core.Ctx) {
 		"{{ sarr | sort_natural | join: ' ' }}", "{{ sarr | join: '-' | split: '-' | last }}", "{% if s contains 'a' %}T{% endif %}{% if sarr contains s %}S{% endif %}", "{{ arr | sort | first }}{{ arr | sort | last }}",
 		"{% for x in arr limit: d offset: 1 %}{{ x }}{% endfor %}", "{{ d | divided_by: 2 }}{{ 7 | divided_by: d }}{{ 7 | modulo: d }}", "{{ s | size }}{{ arr | size }}", "{{ s | slice: 0, d }}{{ s | truncate: 5 }}",
 		"{{ d | default: 'x' }}{{ nd | default: 'dflt' }}", "{% if d < 3 and d > 1 %}T{% endif %}{% if d <= 2 or nd %}U{% endif %}",
+		"{{ m }}", "{{ objs[0] }}|{{ objs | last }}", "{{ mm }}", "{% for kv in mm %}{{ kv[1] }}{% endfor %}",
 	}
 	for i := 0; i < len(dropT)*c.Pick(20, 200); i++ {
 		if !c.Mine(i) {
@@ -146,11 +147,12 @@ func runC18(c *core.Ctx) {
 		env := gen.Env{{K: "d", V: gen.Int(2)}, {K: "nd", V: gen.Nil}, {K: "s", V: gen.Str(names[r.Intn(5)])},
 			{K: "arr", V: gen.Ints(int64(r.Range(1, 3)), 2, int64(r.Range(0, 3)), 1)}, {K: "sarr", V: gen.Strs(names[r.Intn(5)], names[r.Intn(5)], "a")},
 			{K: "nested", V: gen.Arr(gen.Ints(1), gen.Ints(int64(r.Range(2, 5)), 3))}, {K: "m", V: gen.Map(gen.KV{K: "a", V: gen.Int(1)}, gen.KV{K: "b", V: gen.Str("bee")})},
+			{K: "mm", V: gen.Map(gen.KV{K: "in", V: gen.Map(gen.KV{K: "x", V: gen.Int(int64(r.Range(0, 9)))}, gen.KV{K: "l", V: gen.Strs("p", "q")})}, gen.KV{K: "n", V: gen.Nil}, gen.KV{K: "s", V: gen.Str("str")})},
 			{K: "objs", V: gen.Arr(gen.Map(gen.KV{K: "id", V: gen.Int(1)}, gen.KV{K: "name", V: gen.Str(names[r.Intn(5)])}), gen.Map(gen.KV{K: "id", V: gen.Int(2)}, gen.KV{K: "name", V: gen.Str(names[r.Intn(5)])}))}}
 		if !c.Begin("drop-positions:" + src + " env=" + env.String()) {
 			continue
 		}
-		c18Compare(c, e, "drop-positions", src, env, gen.Rep{Drops: true, Typed: i%2 == 0}, nAlt, i)
+		c18Compare(c, e, "drop-positions", src, env, gen.Rep{Drops: true, Typed: i%2 == 0, Pointers: strings.HasPrefix(src, "{{ m") || strings.HasPrefix(src, "{{ objs[0]")}, nAlt, i)
 	}
 	// ---- (2) numeric widths ---------------------------------------------------------------------
 	numT := []string{
